@@ -12,6 +12,12 @@
 // The third replica doubles as a delayed / duplicated message: a replica that only ever merges is a
 // snapshot that can be delivered later, any number of times.
 //
+// Focused families keep long or extreme histories affordable: gcounter with increments {+1, +2^30,
+// +MaxInt32} (the read must be the true 64-bit sum of the increments received, or the operation must
+// fail loudly - a panic -, never a wrapped number; an update that fails loudly is simply not taken),
+// and sets with one element, two updating replicas and a passive third slot (histories of 8-9 steps in
+// which a stale snapshot is delivered late).
+//
 // In every reachable state, on all ordered pairs and triples of its replica states (jointly
 // reachable states only - the property speaks about reachable states), the semilattice laws are
 // checked by internal canonical form (overlay accessor VerifCRDTCanon) and by Read(); every local
@@ -914,7 +920,7 @@ func (s *searcher) checkNode(n *node, laws bool, ws []*node) {
 				key = n.taint
 			}
 			s.col.add(key, &candidate{s: s, n: n, law: "read-semantics", observable: true,
-				what: fmt.Sprintf("gcounter replica r%d reads %v but the increments it has received add up to %d (state %s); beyond 32 bits the only acceptable answer is a loud failure", i+1, got, sum, show(typ, n.reps[i]))})
+				what: fmt.Sprintf("gcounter replica r%d reads %v but the increments it has received add up to %d (state %s); the only acceptable answers are that sum or, when it does not fit 32 bits, a loud failure", i+1, got, sum, show(typ, n.reps[i]))})
 			continue
 		}
 		want := modelRead(typ, s.u, n.ev, n.know[i])
